@@ -38,7 +38,28 @@ class Gen:
             self.toks.append((s, "sym"))
 
     def num(self):
-        self.toks.append((self.r.choice(["0", "1", "42", "8'hff", "4'b01_10", "'0", "3.5", "1e3", "2'sb11", "16'd255"]), "num"))
+        """a number per Annex A.8.7: every base in both cases, the signedness marker s/S, x/z/? digits, underscores,
+        blanks between size, base and value, unbased unsized literals, fixed-point and exponent reals"""
+        r = self.r
+        x = r.random()
+        if x < 0.3:
+            t = r.choice(["0", "1", "42", "1_000", "007"])
+        elif x < 0.75:
+            base = r.choice("dDbBoOhH")
+            sgn = r.choice(["", "", "s", "S"])
+            digs = {"d": "0123456789", "b": "01", "o": "01234567", "h": "0123456789abcdefABCDEF"}[base.lower()]
+            if base.lower() == "d" and r.random() < 0.2:
+                val = r.choice(["x", "X", "z", "Z", "?", "x_", "z__"])
+            else:
+                val = r.choice(digs) + "".join(r.choice(digs + "_" + ("xXzZ?" if base.lower() != "d" else "")) for _ in range(r.randint(0, 5)))
+            size = r.choice(["", "", "8", "16", "1_6", "32"])
+            sp = lambda: r.choice(["", "", "", " "])
+            t = size + (sp() if size else "") + "'" + sgn + base + sp() + val
+        elif x < 0.85:
+            t = r.choice(["'0", "'1", "'x", "'X", "'z", "'Z"])
+        else:
+            t = r.choice(["3.5", "1e3", "1.2E3", "2.5e-3", "1_0.0_1e+2", "0.1", "12E0"])
+        self.toks.append((t, "num"))
 
     # ------------------------------------------------------------ expressions
     def expr(self, names, depth=0):
